@@ -38,7 +38,8 @@ class Proof:
                  loops=(), rules=None, expect=(), canaries=1, unwind=None, unwindset=None, kind='proof',
                  bound_note=None, cbmc_flags=None, drop_flags=(), timeout=600, mem_gb=24, defines=(),
                  functions=(), mutants=(), object_bits=8, solver='--sat-solver cadical', note='', extern_c=True,
-                 no_contract=False, plain=False, assumed=(), replay=None, partial_loops=False, dead_ok=()):
+                 no_contract=False, plain=False, assumed=(), replay=None, partial_loops=False, dead_ok=(), frame_is_property=False):
+        self.frame_is_property = frame_is_property   # True: the assigns clause itself states a claim of the property ("touches nothing else")
         self.site = None                     # optional callback failure -> site string (for known-finding matching)
         self.dead_ok = list(dead_ok)         # canaries that are expected to be unreachable under this contract
         self.name, self.impl, self.spec, self.harness = name, impl, spec, harness or ('h_' + name)
@@ -358,6 +359,20 @@ def run_proof(proof, workroot, mutate=None, keep=False, quiet=False):
             if r.get('sourceLocation', {}).get('propertyClass') in ('postcondition', 'precondition', 'assertion', 'loop_invariant_step', 'loop_decreases', 'assigns'):
                 sample.append('%s: %s [%s]' % (r.get('property'), r.get('description', '')[:120], r['status']))
         res['sample_obligations'] = sample[:12]
+        # A failed *frame* obligation (assigns clause / DFCC write-set check) means the function now writes state its contract
+        # does not list.  Unless the frame itself is a claim of the property, that is "the contract must be re-pointed"
+        # (undecided), not a violation: an added harmless write must not raise an alarm.
+        def is_frame(r):
+            loc = r.get('sourceLocation', {})
+            return (loc.get('propertyClass') == 'assigns' or '.assigns.' in r.get('property', '')
+                    or 'write_set_check' in r.get('property', '') or 'write_set_check' in (loc.get('function') or ''))
+        frame_fails = [r for r in fails if is_frame(r)]
+        res['frame_failures'] = ['%s: %s' % (r.get('property'), r.get('description')) for r in frame_fails][:10]
+        if not proof.frame_is_property:
+            fails = [r for r in fails if not is_frame(r)]
+            if frame_fails and not fails:
+                raise Undecided('frame changed: the function writes state outside the assigns clause of its contract (%s); the contract has to be '
+                                'revisited before the property can be decided' % '; '.join(res['frame_failures'][:3]))
         if fails:
             res['verdict'] = 'violation'
             for r in fails:
